@@ -25,6 +25,7 @@ EXTENDS Naturals, Sequences, FiniteSets, TLC, Json
 
 CONSTANTS MaxTasks, MaxNest, MaxSteps,
           Endings,    \* subset of {"plain", "tryexc", "tryfin", "condret"}
+          Starts,     \* TRUE: children may also be started with `await nursery.start(fn)` (StartPending / Started)
           Portals     \* TRUE: tasks may call greenback.ensure_portal(); from then on they wait for commands in a
                       \* SYNCHRONOUS function through greenback.await_ (their async frames, nursery blocks included,
                       \* then sit on a suspended greenlet's stack).  The expected tree does not depend on it.
@@ -57,6 +58,27 @@ Spawn(t, c) ==
   /\ where' = [where EXCEPT ![c] = "body"] /\ UNCHANGED <<nextN, gb>>
   /\ Tick(Act("spawn", t, c, "-"))
 
+(* task t starts child c through `await nursery.start(fn)`: until fn calls task_status.started() the child lives in a
+   nursery that Trio opens INSIDE Nursery.start, on t's own stack, and t is blocked in that nursery's __aexit__ *)
+Pending(c) == \E t \in Tasks : \E i \in 1..Len(nurs[t]) : nurs[t][i].ending = "start" /\ \E j \in 1..Len(nurs[t][i].kids) : nurs[t][i].kids[j] = c
+StartPending(t, c) ==
+  /\ Starts /\ where[t] = "body" /\ nurs[t] # <<>> /\ Len(nurs[t]) < MaxNest + 1 /\ where[c] = "none"
+  /\ \A c2 \in Tasks : where[c2] = "none" => c <= c2
+  /\ nurs' = [nurs EXCEPT ![t] = Append(@, [id |-> nextN, ending |-> "start", kids |-> <<c>>])]
+  /\ where' = [where EXCEPT ![t] = "aexit", ![c] = "body"]
+  /\ nextN' = nextN + 1 /\ UNCHANGED gb
+  /\ Tick(Act("start", t, c, ToString(nextN)))
+(* the pending child calls task_status.started(): it moves to the nursery it was started into, Trio's inner nursery
+   closes and t goes on in the body *)
+Started(c) ==
+  /\ where[c] = "body" /\ Pending(c)
+  /\ LET p == CHOOSE t \in Tasks : nurs[t] # <<>> /\ Last(nurs[t]).ending = "start" /\ Last(nurs[t]).kids = <<c>>
+         f == Front(nurs[p])
+     IN /\ nurs' = [nurs EXCEPT ![p] = [f EXCEPT ![Len(f)] = [@ EXCEPT !.kids = Append(@, c)]]]
+        /\ where' = [where EXCEPT ![p] = "body"]
+  /\ UNCHANGED <<nextN, gb>>
+  /\ Tick(Act("started", c, 0, "-"))
+
 (* task t leaves the body of its innermost nursery: blocks in __aexit__ while children live, else the nursery closes *)
 Leave(t) ==
   /\ where[t] = "body" /\ nurs[t] # <<>>
@@ -70,7 +92,7 @@ Leave(t) ==
    __aexit__ with no children left resumes in the enclosing body *)
 ParentOf(c) == CHOOSE t \in Tasks : \E i \in 1..Len(nurs[t]) : \E j \in 1..Len(nurs[t][i].kids) : nurs[t][i].kids[j] = c
 Finish(c) ==
-  /\ c # 1 /\ where[c] = "body" /\ nurs[c] = <<>>
+  /\ c # 1 /\ where[c] = "body" /\ nurs[c] = <<>> /\ ~Pending(c)      \* (returning without started() is an error in Trio)
   /\ LET p == ParentOf(c)
          ns == [i \in 1..Len(nurs[p]) |-> [nurs[p][i] EXCEPT !.kids = SelectSeq(@, LAMBDA k : k # c)]]
          unblocked == where[p] = "aexit" /\ Last(ns).kids = <<>>
@@ -96,11 +118,12 @@ TreeOf(t, fuel) == [task |-> t, where |-> where[t], gb |-> gb[t],
 Observe == /\ UNCHANGED <<nurs, where, nextN, gb>>
            /\ Tick([a |-> "observe", t |-> 1, x |-> 0, e |-> "-", tree |-> TreeOf(1, MaxTasks)])
 
-Next == \/ \E t \in Tasks : (\E e \in Endings : Open(t, e)) \/ (\E c \in Tasks : Spawn(t, c)) \/ Leave(t) \/ Finish(t) \/ Ensure(t)
-        \/ Observe
+Struct(t) == (\E e \in Endings : Open(t, e)) \/ (\E c \in Tasks : Spawn(t, c) \/ StartPending(t, c)) \/ Leave(t) \/ Finish(t)
+             \/ Ensure(t) \/ Started(t)
+Next == (\E t \in Tasks : Struct(t)) \/ Observe
 Spec == Init /\ [][Next]_vars
 \* export variant: alternate a structural action with an observation
-NextAlt == \/ (steps % 2 = 0 /\ \E t \in Tasks : (\E e \in Endings : Open(t, e)) \/ (\E c \in Tasks : Spawn(t, c)) \/ Leave(t) \/ Finish(t) \/ Ensure(t))
+NextAlt == \/ (steps % 2 = 0 /\ \E t \in Tasks : Struct(t))
            \/ (steps % 2 = 1 /\ Observe)
 SpecAlt == Init /\ [][NextAlt]_vars
 
@@ -108,7 +131,7 @@ SpecAlt == Init /\ [][NextAlt]_vars
 Live(t) == where[t] \in {"body", "aexit"}
 \* every live non-root task is the child of exactly one open nursery of a live task; children are live
 TreeShape == /\ \A c \in Tasks : (Live(c) /\ c # 1) =>
-                   Cardinality({<<t, i>> \in Tasks \X (1..MaxNest) : i <= Len(nurs[t]) /\ \E j \in 1..Len(nurs[t][i].kids) : nurs[t][i].kids[j] = c}) = 1
+                   Cardinality({<<t, i>> \in Tasks \X (1..(MaxNest + 1)) : i <= Len(nurs[t]) /\ \E j \in 1..Len(nurs[t][i].kids) : nurs[t][i].kids[j] = c}) = 1
              /\ \A t \in Tasks : \A i \in 1..Len(nurs[t]) : \A j \in 1..Len(nurs[t][i].kids) : Live(nurs[t][i].kids[j])
              /\ \A t \in Tasks : (nurs[t] # <<>>) => Live(t)
 \* only the innermost nursery can be the one being exited
